@@ -15,16 +15,22 @@ pub mod vshim;
 /// re-export).  signal-hook only touches `sa_sigaction`, `sa_flags` and whole-
 /// struct zeroing/copies; the 128-byte mask makes every snapshot copy in the
 /// registry four times as expensive for the solver without being looked at.
+/// sigset_t keeps the kernel ABI size (1024 bits); the model looks at word 0.
 #[repr(C)]
 #[derive(Copy, Clone)]
 pub struct sigset_t {
+    pub bits: [u64; 16],
+}
+#[repr(C)]
+#[derive(Copy, Clone)]
+pub struct small_mask {
     pub bits: u64,
 }
 #[repr(C)]
 #[derive(Copy, Clone)]
 pub struct sigaction {
     pub sa_sigaction: sighandler_t,
-    pub sa_mask: sigset_t,
+    pub sa_mask: small_mask,
     pub sa_flags: c_int,
     pub sa_restorer: Option<extern "C" fn()>,
 }
@@ -34,7 +40,7 @@ pub unsafe fn sigaction(signum: c_int, act: *const sigaction, oldact: *mut sigac
     model::sys_sigaction(signum, act, oldact)
 }
 pub unsafe fn sigemptyset(set: *mut sigset_t) -> c_int {
-    *(set as *mut u64) = 0;
+    (*set).bits = [0; 16];
     0
 }
 pub unsafe fn sigaddset(set: *mut sigset_t, signum: c_int) -> c_int {
